@@ -1263,7 +1263,7 @@ func schTags(sc *scenario, tags ...string) []string {
 func genLarge(w *out.W, tier string) {
 	w.Rule = "seeded random change sets of 13..40 changes (Go's sort.Slice is an insertion sort up to 12 elements and pdqsort, not stable, beyond): 60..85% of the tables unrelated (no foreign keys), 1..4 FK chains of 2..6 tables, 1 case in 4 with a planted cycle, 1 in 5 with a few extra edges; roles create-all / drop-all / modify-all (4 readings; a ModifyTable's T.ForeignKeys never lists the keys it adds) / mixed incl. kept tables; order: random / children before parents with unrelated tables between them / drop-only ModifyTables last. Compared with the model: the multiset of planned changes + replay verdict (the order of equal sort keys is pdqsort's); the order is judged by the oracle (reference catalogue, same-value replanning) on the Go plans. Non-trivial = the planned order differs from the input order"
 	r := rng.FromEnv(0xC04B)
-	count := 4000
+	count := 2500
 	if tier == "thorough" {
 		count = 60000
 	}
